@@ -136,7 +136,7 @@ public:
 	HFSM2_CONSTEXPR(14)	double	float64()								noexcept	{ return uniform(uint64());					}
 	HFSM2_CONSTEXPR(14)	float	float32()								noexcept	{ return uniform(uint32());					}
 
-	HFSM2_CONSTEXPR(14)	uint64_t uint64()								noexcept	{ return widen(uint32(), uint32());			}
+	HFSM2_CONSTEXPR(14)	uint64_t uint64()								noexcept	{ const uint32_t hi = uint32(); const uint32_t lo = uint32(); return widen(hi, lo);			}
 	HFSM2_CONSTEXPR(14)	uint32_t uint32()								noexcept;
 
 	HFSM2_CONSTEXPR(14)	float next()									noexcept	{ return float32();							}
@@ -184,7 +184,7 @@ public:
 	HFSM2_CONSTEXPR(14)	double	float64()								noexcept	{ return uniform(uint64());			}
 	HFSM2_CONSTEXPR(14)	float	float32()								noexcept	{ return uniform(uint32());			}
 
-	HFSM2_CONSTEXPR(14)	uint64_t uint64()								noexcept	{ return widen(uint32(), uint32());	}
+	HFSM2_CONSTEXPR(14)	uint64_t uint64()								noexcept	{ const uint32_t hi = uint32(); const uint32_t lo = uint32(); return widen(hi, lo);	}
 	HFSM2_CONSTEXPR(14)	uint32_t uint32()								noexcept;
 
 	HFSM2_CONSTEXPR(14)	void jump()										noexcept;
